@@ -119,10 +119,10 @@ def run_cases(cases):
     for (d, e), b, din, r, m in zip(cases, blobs, dins, res, mo):
         model = None
         if '|' in m:
-            cnt, md = m.split('|', 1); ap, sk, o = map(int, cnt.split())
+            cnt, md = m.split('|', 1); ap, sk, o, nn = map(int, cnt.split())
             model = (ap, sk, o, A.un_doc(A.sx_parse(md)))
         else: model = ('ERR', m)
-        out.append({'d': d, 'b': b, 'din': din, 'edits': e, 'r': r, 'model': model})
+        out.append({'d': d, 'b': b, 'din': din, 'edits': e, 'r': r, 'model': model, 'nn': nn if '|' in m else 0})      # nn: nested-insertion replacements in the model's run
     return out
 
 def correspondence(ck, c):
